@@ -259,4 +259,7 @@ def run(ctx, rep):
     for a, b in zip(steps, steps[1:]):
         must_precede(ctx, rep, "C02.d", f"plan-order/{a}-{b}", FP, call_pred(rf"prune::PrunePlan::{a}$"), call_pred(rf"prune::PrunePlan::{b}$"), what_a=a, what_b=b)
     # ---- C02.e -------------------------------------------------------------------------------------
-    rep.note("R-ORDER #13/#14 (index written before old index files are removed; index files removed before packs) are evaluated by C03 and C10")
+    from rules import C03
+    from rules.C10 import borrow
+    n = borrow(rep, ctx, C03, lambda o: o.rule == "R-ORDER" and re.search(r"/R-ORDER/(13|13b|14)/", o.key), "C02.e")
+    rep.floor("C02.e", "borrowed obligations", n, 6)
